@@ -12,7 +12,7 @@ A spec is a dict:
   {"t": "Fraction"|"Select", "q": field, "v": spec}
   {"t": "Label"|"UntypedLabel", "ch": {key: spec}}   {"t": "Index"|"Branch", "ch": [spec...]}
 Optional "qk" on any quantity-bearing node selects the quantity kind
-(lambda | def | str | named | named_empty | cached | named_cached); default lambda.
+(lambda | lambda_default | def | str | named | named_empty | cached | named_cached); default lambda.
 Records are dicts with fields x, y (numbers), c (category), s (selection), b (bag string), v (2-vector).
 """
 import json
@@ -79,9 +79,15 @@ def quantity(field, qk="lambda", nid=None, failing=False):
                 return f[2]
             return d[_field]
 
+        # the fault sits inside the function; a caching wrapper around it must not change what a failure means
+        if qk in ("cached", "named_cached"):
+            return cached(q)
         return q
     if qk == "lambda":
         return _fresh_lambda(field)
+    if qk == "lambda_default":
+        # a default argument that is only equal to itself by identity (a "missing value" marker)
+        return eval('lambda d, _missing=float("nan"): d.get("%s", _missing)' % field)
     if qk == "def":
         return _DEFS[field]
     if qk == "str":
@@ -100,7 +106,7 @@ def quantity(field, qk="lambda", nid=None, failing=False):
 
 
 def expected_name(field, qk):
-    if qk in ("lambda", "cached"):
+    if qk in ("lambda", "cached", "lambda_default"):
         return None
     if qk == "def":
         return "_def_" + field
